@@ -1150,14 +1150,34 @@ func r02_11(c *RC) {
 		c.Anchor("Session.input / Session.lastRXTime")
 		return
 	}
+	// the refresh: lastRXTime.Store(..) in input itself, or a call of a helper
+	// that performs it on every one of its paths (noteReceived())
 	var stores []ssa.Instruction
-	for _, f := range withHelpers(p, fn, 1) {
-		instrs(f, func(_ *ssa.BasicBlock, _ int, in ssa.Instruction) {
-			if n, _ := atomicCallOn(in, lr); n == "Store" && f == fn {
+	isStore := func(in ssa.Instruction) bool {
+		n, _ := atomicCallOn(in, lr)
+		return n == "Store"
+	}
+	instrs(fn, func(_ *ssa.BasicBlock, _ int, in ssa.Instruction) {
+		if isStore(in) {
+			stores = append(stores, in)
+			return
+		}
+		if cl, ok := in.(*ssa.Call); ok {
+			sc := cl.Common().StaticCallee()
+			if sc == nil || sc.Blocks == nil || pkgOfFn(sc) != pkgOfFn(fn) || sc.Object() == nil || sc.Object().Exported() || anchorNames[sc.Name()] {
+				return
+			}
+			has := false
+			instrs(sc, func(_ *ssa.BasicBlock, _ int, y ssa.Instruction) {
+				if isStore(y) {
+					has = true
+				}
+			})
+			if has && reachableAvoiding(sc, sc.Blocks[0].Instrs[0], isReturn, isStore) == nil {
 				stores = append(stores, in)
 			}
-		})
-	}
+		}
+	})
 	n := 0
 	instrs(fn, func(_ *ssa.BasicBlock, _ int, in ssa.Instruction) {
 		cl, ok := in.(*ssa.Call)
